@@ -381,3 +381,81 @@ def run(ctx):
             else:
                 ctx.bad('C01.2-utf8-atoms-as-utf8', inst_, '%s has a successful path that never converts the bytes as UTF-8: a name with a multi-byte character decodes to a different atom than was encoded'
                         % ent_['parser'].rsplit('::', 1)[1], ctx.where(UB), key='SHAPE:%s:utf8-atom-not-read-as-utf8' % ent_['parser'])
+
+    # every field of a variant that is not a collection reaches the wire on every successful path of its encoder.  The encoder of a variant is
+    # looked at together with the dispatch arm that calls it (the callee is spliced into the arm and constant arguments - `Some(tail)`, `None` -
+    # are threaded through its branches): a shortcut that is right for one caller of a shared encoder and wrong for the other shows here.
+    ctx.rule('C01.2-variant-fields-written', 'for every OwnedTerm variant, each field that is not a collection (a tail, a bit count, an identifier, a number, an atom) is handed to a write or to a '
+             'sub-encoder on every path of the dispatch arm + its encoder that ends in success; decided on the arm with its callee spliced in and constant arguments propagated', floor=8)
+    from ..inline import inline_into as _inl01, fold_constant_switches as _fold01, thread_jumps as _thr01, split_webs as _webs01
+    from ..core import B as _B01
+    from ..wire import error_blocks as _errb01, prim_of as _prim01
+    EB0 = P.B(ENC + 'encode_term_impl')
+    if ctx.anchor(EB0 is not None, ENC + 'encode_term_impl'):
+        callees = set()
+        for bb, t in EB0.calls():
+            for n in callee_names(t):
+                if n.startswith(ENC) and n in ctx.F.bodies and n != EB0.path and ctx.F.bodies[n]['kind'] in ('Fn', 'AssocFn'):
+                    callees.add(n)
+        import copy as _copy01
+        nb = _inl01(ctx.F, EB0.b, callees, (EB0.path,), 4, {})
+        if nb is not EB0.b:
+            nb = _webs01(_thr01(_fold01(nb), ctx.F.adts))
+        NB = _B01(nb)
+        NB.PROGRAM = P
+        errs = _errb01(NB)
+        rets = set(NB.return_blocks())
+        sd0 = None
+        for bb in sorted(NB.live_blocks()):
+            sd_ = NB.switch_on_discr(bb)
+            if sd_ and sd_[1].replace('&', '').split('<')[0] == OWNED:
+                sd0 = sd_
+                break
+        vs_ = ctx.F.adts[OWNED]['variants']
+        if ctx.anchor(sd0 is not None, ENC + 'encode_term_impl: match on the term'):
+            for vi, start in sd0[2]:
+                v = [x for x in vs_ if int(x['discr']) == vi]
+                if not v:
+                    continue
+                v = v[0]
+                region = NB.reachable(start)
+                for k, f in enumerate(v['fields']):
+                    ty = f['ty']
+                    if any(x in ty for x in ('alloc::vec::Vec<', 'BTreeMap<', 'alloc::string::String')):
+                        continue
+                    # locals bound to this field in the arm
+                    binds = []
+                    for bb in sorted(region):
+                        for st in NB.blocks[bb]['s']:
+                            if st['k'] != '=' or st['rv']['k'] not in ('ref', 'use'):
+                                continue
+                            pl = st['rv']['pl'] if st['rv']['k'] == 'ref' else (st['rv']['op'].get('pl') if st['rv']['op'].get('k') in ('cp', 'mv') else None)
+                            ps = (pl or {}).get('p') or []
+                            for a_, b_ in zip(ps, ps[1:]):
+                                if isinstance(a_, dict) and a_.get('dc') == v['n'] or isinstance(a_, dict) and 'dc' in a_ and str(a_.get('n')) == v['n']:
+                                    if isinstance(b_, dict) and b_.get('f') == k and not st['pl'].get('p'):
+                                        binds.append(st['pl']['l'])
+                    inst = '%s.%s' % (v['n'], f['n'])
+                    if not binds:
+                        ctx.bad('C01.2-variant-fields-written', inst, 'the %s arm of the encoder never looks at the field `%s`: it cannot be on the wire' % (v['n'], f['n']), ctx.where(NB, start),
+                                key='SHAPE:%sencode_term_impl:%s.%s:never-read' % (ENC, v['n'], f['n']))
+                        continue
+                    der = NB.derived_locals(binds)
+                    uses = set()
+                    for bb in region:
+                        t = NB.blocks[bb]['t']
+                        if t['k'] != 'call':
+                            continue
+                        nm = callee_of(t)[0] or ''
+                        is_sink = (nm.startswith(ENC) or (_prim01(t) is not None and _prim01(t)[0] == 'w'))
+                        if is_sink and any(a.get('k') in ('cp', 'mv') and a['pl']['l'] in der for a in t['args']):
+                            uses.add(bb)
+                    reach = NB.reachable(start, removed_blocks=uses | errs)
+                    leak = sorted(r for r in rets if r in reach and start not in uses)
+                    # a success return is one that is not an error block; returns are shared, so ask: can a return be reached without passing a use or an error block?
+                    if leak:
+                        ctx.bad('C01.2-variant-fields-written', inst, 'the encoder of %s has a successful path on which the field `%s` is never handed to a write or a sub-encoder '
+                                '(for instance a shortcut for an empty collection taken before the field is written): the value is dropped from the encoding' % (v['n'], f['n']),
+                                ctx.where(NB, start), key='SHAPE:%sencode_term_impl:%s.%s:dropped-on-a-path' % (ENC, v['n'], f['n']))
+                    else:
+                        ctx.ok('C01.2-variant-fields-written', inst, 'every successful path of the arm and its encoder passes a write / sub-encoder call fed from the field (%d such call(s))' % len(uses), ctx.where(NB, start))
